@@ -139,8 +139,8 @@ def run(ctx, env):
     for o in sub5:
         if "ipfix" in o["func"] or o["detail"].startswith("floor"):
             ctx.ob("R11.5", o["func"], o["detail"], o["status"] == "discharged", o["reason"], o["site"])
-    def is_take_mapres(nd):
-        return nd["path"].startswith("nom::combinator::map_res") and "{closure#" in nd["path"] and any("nom::bytes::complete::take" in a for a in nd["args"])
+    from .layout import delimiting_node_pred
+    is_take_mapres = delimiting_node_pred(prog, an)
     for tp in ("variable_versions::ipfix::FlowSet::parse_be", "variable_versions::ipfix::FlowSetBody::parse"):
         present = [nd for nd in prog.nodes if nd["path"] == tp]
         if ctx.anchor("R11.5", tp, present):
